@@ -308,20 +308,35 @@ def rule_mirror(fx, rep):
     bpb = fx.one("material::bishop_pair_eval")
     n += 1
     found = {}
+
+    def abstract_colour(e, seen):
+        """replace Player::White / Player::Black constants by a placeholder, recording which were seen"""
+        if not isinstance(e, tuple) or not e:
+            return e
+        if e[0] == "agg" and isinstance(e[1], str) and e[1].endswith("Player::White") and not e[2]:
+            seen.add("White")
+            return ("COLOUR",)
+        if e[0] == "agg" and isinstance(e[1], str) and e[1].endswith("Player::Black") and not e[2]:
+            seen.add("Black")
+            return ("COLOUR",)
+        return tuple(abstract_colour(x, seen) if isinstance(x, tuple) else x for x in e)
+
     for bb, t in bpb.calls():
         cn = norm(callee_name(t) or "")
         if cn.endswith("AddAssign>::add_assign") or cn.endswith("SubAssign>::sub_assign"):
             val = deep_strip(bpb.expr(t["args"][1], expand_named=True, at=bb))
-            colour = None
+            colours = set()
+            pred = set()
             for (e, pol, w) in guard_conditions(bpb, bb, expand_named=True):
-                co = cmp_op(e)
-                if co and pol is True and co[0] == "Gt":
-                    c = find_calls(co[1], "Board::bishops")
-                    if c:
-                        colour = (enum_name(c[0][2][1]), deep_strip(co[2]))
-            found["add" if "add_assign" in cn else "sub"] = (colour, val)
-    good = set(found) == {"add", "sub"} and found["add"][1] == found["sub"][1] and found["add"][0] and found["sub"][0] and \
-        found["add"][0][0] == "White" and found["sub"][0][0] == "Black" and found["add"][0][1] == found["sub"][0][1]
+                cs = set()
+                a = abstract_colour(deep_strip(e), cs)
+                if cs:
+                    colours |= cs
+                    pred.add((show(a), str(pol)))
+            found["add" if "add_assign" in cn else "sub"] = (sorted(colours), sorted(pred), val)
+    # the same predicate modulo the colour constant: White's adds, Black's subtracts the same bonus
+    good = set(found) == {"add", "sub"} and found["add"][2] == found["sub"][2] and found["add"][0] == ["White"] and found["sub"][0] == ["Black"] and \
+        found["add"][1] == found["sub"][1] and bool(found["add"][1])
     rep.obligation(good)
     if not good:
         bad("bishop-pair", f"bishop pair bonus is not applied symmetrically: {found}", bpb)
